@@ -81,7 +81,7 @@ struct sk_proc {
   int stdin_read;          /* bytes consumed from stdin by env steps */
   int stdin_eof;           /* saw EOF on stdin */
   int stdin_bad;           /* pattern mismatch */
-  int fk_nblocked, fk_start2; /* fork-mode child: number of blocked signals when start returned in it; result of a second start there */
+  int fk_nblocked, fk_start2, fk_lost; /* fork-mode child: number of blocked signals when start returned in it; result of a second start there */
 };
 struct sk_log { int kind, side, a, b, c, r, t; };
 struct sk_fault { int side; int index; int err; int kind; /* 0 = any */ };
